@@ -114,6 +114,20 @@ def run_wire(v, tier, seed, replay_case=None, only_order=False, part=None):
                                   env={"VERIF_IN": cases, "VERIF_OUT": obs, "VERIF_SEED": seed}, timeout=1500)
     vlib.go_must_build(rc, gout, "C02 wire")
     if rc != 0:
+        import re
+        m = re.search(r"^(panic: .*|fatal error: .*)$", gout, re.M)
+        sdk_frame = re.search(r"go-sdk/(mcp|internal/\w+|jsonrpc|auth|oauthex)\.", gout) and re.search(r"/(mcp|internal/\w+)/[a-z_0-9]+\.go:\d+", gout)
+        if m and sdk_frame and "test timed out" not in gout:
+            # the SDK crashed the process (a panic on one of its own goroutines): real-code behaviour, attributed to the case in flight
+            inflight = {}
+            try:
+                inflight = json.loads(open(obs + ".progress").read().split("\n")[0])
+            except Exception:
+                pass
+            v.violation("crash:%s[%s]:%s" % (inflight.get("t", "?"), ",".join(inflight.get("members") or []) or inflight.get("method", ""), m.group(1)[:60]),
+                        "the SDK crashed the process while wire case %s was in flight: %s" % (json.dumps(inflight)[:300], m.group(1)[:200]),
+                        {"wire_case": inflight, "output": gout[-3000:]})
+            return []
         raise vlib.MachineryError("C02 wire harness failed:\n" + gout[-3000:])
     rows = vlib.read_ndjson(obs)
     if len(rows) != ncases:
